@@ -7,7 +7,7 @@ from typing_extensions import override
 
 from .decodestate import DecodeState
 from .encodestate import EncodeState
-from .exceptions import odxassert, odxraise, odxrequire
+from .exceptions import DecodeError, odxassert, odxraise, odxrequire
 from .field import Field
 from .odxlink import OdxDocFragment, OdxLinkDatabase, OdxLinkId
 from .odxtypes import ParameterValue
@@ -100,6 +100,9 @@ class StaticField(Field):
             result.append(self.structure.decode_from_pdu(decode_state))
 
             decode_state.cursor_byte_position = orig_cursor + self.item_byte_size
+            if decode_state.cursor_byte_position > len(decode_state.coded_message):
+                odxraise(
+                    f"The PDU ends within an item of static field {self.short_name}", DecodeError)
 
         decode_state.origin_byte_position = orig_origin
 
